@@ -110,13 +110,16 @@ def check_src(rep, prog):
               "SRC parser module receives %s" % ([repr(e.data[2])[:200] for e in calls][:1],))
     # containment: import and call each covered by a handler; every failure returns ''
     handlers = {e.data[0]: e for e in I.events if e.kind == "handler"}
+    broad_flags = {e.data[0] for e in I.events if e.kind == "handler" and e.data[1] in ("Exception", "BaseException", None)}
     # (the try statements whose BODY holds the call: code after a try whose handler returns carries the same "no exception so
     # far" condition but is not protected by it)
     from .c12 import tries_covering
     okc = all(any(x in handlers and handlers[x].data[1] in ("Exception", "BaseException", None) for x in tries_covering(I.events, e)) for e in calls) and bool(calls)
-    oki = all(any(x in handlers for x in tries_covering(I.events, e)) for e in imps) and bool(imps)
-    rep.check(okc and oki, "C18.R4.containment", "SRC parser import and call are each inside try/except", "SRC.parse", "try: ... except",
-              "a failing SRC parser module is not contained: import covered=%s, call covered by 'except Exception'=%s" % (oki, okc))
+    # (a parser module can fail at import with anything - SyntaxError, OSError from a missing data file, ...: a handler for
+    # ImportError alone does not contain it)
+    oki = all(any(x in broad_flags for x in tries_covering(I.events, e)) for e in imps) and bool(imps)
+    rep.check(okc and oki, "C18.R4.containment", "SRC parser import and call are each inside a try with a handler for Exception", "SRC.parse", "try: ... except",
+              "a failing SRC parser module is not contained: import covered by a broad handler=%s, call covered by 'except Exception'=%s" % (oki, okc))
     hf = pelx.handler_failures(I.events)
     rep.check(not hf, "C18.R4.containment", "the handlers that contain an SRC parser failure cannot fail themselves", "SRC.parse",
               hf[0][0].node if hf else "except Exception", "the handler that contains a failing SRC parser can raise itself (%s): the whole PEL is "
